@@ -56,24 +56,7 @@ pub fn vx_i64_to_string(x: i64) -> String { unimplemented!() }
 pub proof fn chk_nesting_limit()
     requires MAX_NESTING <= 200,   //@L C05.nesting.the_limit_is_far_below_what_the_stack_was_measured_to_hold
 { }
-// the running depth after the first n characters, and the deepest it has been
-pub open spec fn depth_at(t: Seq<char>, open: char, close: char, n: int) -> int
-    decreases n
-{
-    if n <= 0 { 0 } else {
-        let d = depth_at(t, open, close, n - 1);
-        if t[n - 1] == open { d + 1 } else if t[n - 1] == close && d > 0 { d - 1 } else { d }
-    }
-}
-pub open spec fn deepest_at(t: Seq<char>, open: char, close: char, n: int) -> int
-    decreases n
-{
-    if n <= 0 { 0 } else {
-        let m = deepest_at(t, open, close, n - 1);
-        let d = depth_at(t, open, close, n);
-        if d > m { d } else { m }
-    }
-}
+''' + common.NESTING_SPEC + r'''
 pub proof fn lemma_depth_bounds(t: Seq<char>, open: char, close: char, n: int)
     requires 0 <= n <= t.len()
     ensures 0 <= depth_at(t, open, close, n) <= n, 0 <= deepest_at(t, open, close, n) <= n, depth_at(t, open, close, n) <= deepest_at(t, open, close, n)
@@ -138,7 +121,7 @@ def gen_primary(g, canary):
 
 
 nesting_depth = Fn('src/tools.rs', 'nesting_depth', ret='r', loop_kinds={0: 'chars'}, props=('C05', 'C19', 'C12', 'C11'),
-    ensures=[('C05.nesting.the_depth_is_the_deepest_the_running_count_of_open_pairs_gets', 'r as int == deepest_at(text@, open, close, text@.len() as int)')],
+    ensures=[('C05.nesting.the_depth_is_the_deepest_the_running_count_of_open_pairs_gets', 'r as int == nest(text@, open, close)')],
     loops={0: Loop(invariant=[('C05.inv.nesting.count', '__v0@ == text@ && depth as int == depth_at(text@, open, close, __i0 as int) && deepest as int == deepest_at(text@, open, close, __i0 as int) '
                                                          '&& deepest <= __i0 && depth <= deepest')])},
     hints={'fn-entry': 'chk_nesting_limit();', 'loop-0-body-entry': 'lemma_depth_bounds(text@, open, close, __i0 as int); lemma_depth_bounds(text@, open, close, __i0 as int + 1);'},
